@@ -7,8 +7,7 @@
  "annotate": ["events/events_network.c"],
  "defines": ["VERIF_HALLOC", "NET_FIXCAP_S"],
  "matrix": {"NET_FA_EXACT": [0, 1, 2, 3]},
- "allow_undefined": ["libcperciva_warn", "libcperciva_warnx"],
- "models": ["models/ev_poll.c", "models/ev_atexit.c", "models/ev_selectstats.c"],
+ "models": ["models/ev_poll.c", "models/ev_atexit.c", "models/ev_selectstats.c", "models/ev_warnp.c"],
  "cbmc": ["--malloc-may-fail", "--malloc-fail-null"],
  "timeout": 300,
  "assumptions": ["object-size parameters: <= NS_Q descriptors in S, <= NF_Q initialised / NF_A allocated pollfd entries",
@@ -33,7 +32,7 @@ h_growpollfd(void)
 	EV_SPEC_BEGIN
 	/* as events_network_register calls it: the slot of fd was just filled, fd is not yet in the poll array */
 	__CPROVER_assume(nfds < NF_Q && fd < NS_N && NS_R(fd).pollpos == NOPOS);
-	__CPROVER_assume(NET_ALL_F && NET_INV_G && NET_ALL_S_BUT(fd));
+	__CPROVER_assume(NET_ALL_F & NET_INV_G & NET_ALL_S_BUT(fd));
 	EV_SPEC_END
 	size_t nfds0 = nfds, fa0 = fds_alloc;
 
